@@ -504,6 +504,9 @@ type fatCase struct {
 	// marked bad in both FAT copies (a state a real medium can be in) and the volume is re-opened, so that
 	// the history allocates, reads and writes clusters on both sides of that offset (e.g. 4 GiB)
 	HighClusters int64 `json:"high_clusters,omitempty"`
+	// Used: the range is not fresh. A volume of the same type and geometry, made by the library, with files and
+	// directories in its root, occupies it, and Create is run over it again (a disk that is formatted a second time)
+	Used bool `json:"used,omitempty"`
 }
 
 // fatMarkBadBelow marks clusters bad (FAT32 only); returns how many were marked.
@@ -681,6 +684,33 @@ func runFatCase(prop string, c core.Case, env *core.Env) core.Result {
 		return res
 	}
 	res.Count("create.accepted."+v.Type, 1)
+	if fc.Used {
+		var e error
+		pi := core.Guard(func() {
+			// fill the old volume's root: files of several sizes, long names, directories with content
+			for i := 0; i < 14 && e == nil; i++ {
+				name := fmt.Sprintf("/old file number %02d.dat", i)
+				if i%3 == 0 {
+					name = fmt.Sprintf("/OLD%02d.TXT", i)
+				}
+				if i%5 == 4 {
+					if e = fs.Mkdir(fmt.Sprintf("/olddir%02d/sub", i)); e == nil {
+						e = writeWhole(fs, fmt.Sprintf("/olddir%02d/sub/inner.bin", i), gen.PRFBytes(uint64(i+50), 3000+i*700))
+					}
+					continue
+				}
+				e = writeWhole(fs, name, gen.PRFBytes(uint64(i+1), []int{1, 700, 5000, 19200, 40000}[i%5]))
+			}
+			if e == nil {
+				fs, e = fatCreate(st, v)
+			}
+		})
+		if pi != nil || e != nil {
+			res.Inconclusive = fmt.Sprintf("formatting the used range again failed: %v %v", e, pi)
+			return res
+		}
+		res.Mark("range formatted a second time over a populated volume")
+	}
 	if fc.HighClusters > 0 && v.Type == "fat32" {
 		n := fatMarkBadBelow(st, v, fc.HighClusters)
 		if n == 0 {
@@ -1188,4 +1218,18 @@ func fatRootFill(fr *fatRun, fs filesystem.FileSystem, step func(fsdrive.Op) boo
 			return
 		}
 	}
+}
+
+
+// writeWhole creates a file with the given content through the plain API.
+func writeWhole(fs filesystem.FileSystem, p string, data []byte) error {
+	f, err := fs.OpenFile(p, os.O_CREATE|os.O_RDWR)
+	if err != nil {
+		return err
+	}
+	if _, err := f.Write(data); err != nil {
+		f.Close()
+		return err
+	}
+	return f.Close()
 }
